@@ -28,7 +28,10 @@ PROP = dict(
         "single-column relations in a permuted order, associated left or right, and by one join of multi-row relations - next to "
         "literal spellings ({|a,b| ...}, sets of tuples) of the same relation and of neighbours (one cell changed), bare and wrapped "
         "alike, and as keys of every client of the order. Rep.relation carries the stored column order; the model's Less/key are "
-        "independent of it (theorems), Go's row walks are not - their agreement is what the run checks (no join in the model)"],
+        "independent of it (theorems), Go's row walks are not - their agreement is what the run checks (no join in the model)",
+        "10% of the cases are MULTI-VALUED dictionaries (only `with` / `|` build them): the same dictionary inserted in two or three "
+        "different orders by `with` and by `|`, neighbours with one value replaced, single-valued dictionaries in between; bare, "
+        "wrapped alike, and as keys of every client of the order"],
     level_text="Proof: 42 Lean theorems about the transliteration of all 15 Less methods (as repaired), Kind(), compareOps, OrderBy, "
                "OrderedValues, Rank, max/min: an order embedding less a b <-> key a < key b into a proved linear order gives "
                "irreflexivity, transitivity, trichotomy (exactly one of a<b, a=b, b<a), <= > >= as derived relations, "
